@@ -1,0 +1,21 @@
+//go:build verif
+
+package unicodedata
+
+import "unicode"
+
+// Read-only accessors to the unexported tables, used by the external verification harness only.
+
+func VerifLineBreaks() []*unicode.RangeTable     { return lineBreaks[:] }
+func VerifGraphemeBreaks() []*unicode.RangeTable { return graphemeBreaks[:] }
+func VerifGraphemeBreakAll() *unicode.RangeTable { return graphemeBreakAll }
+func VerifWordBreaks() []*unicode.RangeTable     { return wordBreaks[:] }
+func VerifWordBreakAll() *unicode.RangeTable     { return wordBreakAll }
+func VerifCombiningClasses() []*unicode.RangeTable {
+	return combiningClasses[:]
+}
+func VerifCategories() []*unicode.RangeTable { return categories }
+func VerifDecompose1() map[rune]rune         { return decompose1 }
+func VerifDecompose2() map[rune][2]rune      { return decompose2 }
+func VerifCompose() map[[2]rune]rune         { return compose }
+func VerifMirroring() map[rune]rune          { return mirroring }
